@@ -194,6 +194,23 @@ def _lib_targets():
     return out
 
 
+def coq_make_keep_going(targets, timeout=1500, jobs=None):
+    """After a failed build: rebuild everything of the targets' closure that CAN be built (`make -k`), so that the executable
+    models (kept free of proofs) are compiled against the current Generated/ files and the correspondence run can still
+    evaluate them.  The result of the failing files is ignored here (the failure was recorded by the caller)."""
+    jobs = jobs or NPROC
+    dirs = sorted(set(t.split('/')[0] for t in targets if '/' in t)) or ['all']
+    locks = [Lock(os.path.join(COQ, '.lock-' + d)) for d in dirs]
+    for l in locks:
+        l.__enter__()
+    try:
+        subprocess.run(['timeout', str(timeout), 'make', '-k', '-j%d' % jobs] + list(targets), cwd=COQ,
+                       stdout=subprocess.PIPE, stderr=subprocess.STDOUT, text=True)
+    finally:
+        for l in reversed(locks):
+            l.__exit__()
+
+
 def coq_make(targets, timeout=1500, jobs=None):
     """Build targets (paths relative to coq/, e.g. 'C06/Props.vo').
     The shared part (project files, Lib/) is built under a global lock; the
